@@ -88,12 +88,13 @@ func runsProgram(fns []*ssa.Function) map[*ssa.Function]bool {
 }
 
 func C08(c *Ctx) {
-	c.R.Explanation = "Decides structural necessary conditions of 'emission is atomic and ordered': (R1) in the ECMAScript interpreter every return that can carry a non-nil error after the program has run returns a nil Execution (core adds an Execution's events whenever it is non-nil, so this is the point that carries atomicity); (R2) the emit callback appends only to the Execution allocated by this call, and every emitted value is a private copy (not reachable from the script world or the caller's data); (R3) from the result of a guard execution only Bs and Events.Traces are read — it never reaches AddEvents/AddEmitted; (R4) the accumulation functions — every function of core or of the interpreter that extends or enumerates an ordered record (Events.Emitted, Traces.Messages, Walked.Strides), and the emit callback — contain no go statement, never extend an ordered record or call an accumulator inside a range over a map, and every such append extends its own first operand; (R5) in sio.ProcessMsg the re-queue and report appends are unconditional in the per-message callback, and each reported batch is a slice allocated inside the per-machine loop; (R6) every return of core Step that is reachable after the action's events were attached returns that stride unless the action itself failed, and Walk hands every stride returned by Step to Walked.add before the next step or a return. Timeouts at run time and native actions are not decided."
+	c.R.Explanation = "Decides structural necessary conditions of 'emission is atomic and ordered': (R1) in the ECMAScript interpreter every return that can carry a non-nil error after the program has run returns a nil Execution (core adds an Execution's events whenever it is non-nil, so this is the point that carries atomicity); (R2) the emit callback appends only to the Execution allocated by this call, and every emitted value is a private copy (not reachable from the script world or the caller's data); (R3) from the result of a guard execution only Bs and Events.Traces are read — it never reaches AddEvents/AddEmitted; (R4) the accumulation functions — every function of core or of the interpreter that extends or enumerates an ordered record (Events.Emitted, Traces.Messages, Walked.Strides), and the emit callback — contain no go statement, never extend an ordered record or call an accumulator inside a range over a map, and every such append extends its own first operand; (R5) in sio.ProcessMsg the re-queue and report appends are unconditional in the per-message callback, and each reported batch is a slice allocated inside the per-machine loop; (R6) every return of core Step that is reachable after the action's events were attached returns that stride unless the action itself failed, and Walk hands every stride returned by Step to Walked.add before the next step or a return. (R7) in cmd/mcrew every send of an emitted message on Service.Emitted is executed by Process (or a helper it calls) itself — never from a goroutine it starts, which would lose the order — inside the loop over each stride's Emitted, with that loop's element as the value. Timeouts at run time and native actions are not decided."
 	c.R.Rule("C08-R1", "E3", "no emissions together with an error from the interpreter", 2)
 	c.R.Rule("C08-R2", "E1", "private emit buffer; emitted values are private copies", 2)
 	c.R.Rule("C08-R3", "E5", "guard executions contribute traces only", 1)
 	c.R.Rule("C08-R4", "E3", "accumulators keep order: no map range, no go, append extends its own operand", 5)
 	c.R.Rule("C08-R5", "E3+E1", "crew re-queues and reports every emitted message once; batches are private", 3)
+	c.R.Rule("C08-R7", "E3+E7", "mcrew reports emitted messages in emission order: the hand-over to Service.Emitted is made by Process itself, inside the loop over the strides' Emitted", 1)
 	c.R.Rule("C08-R6", "E3", "a completed action's events leave Step with the stride, and Walk records every stride", 3)
 
 	a, exec := c.ecmaAnalysis()
@@ -196,6 +197,7 @@ func C08(c *Ctx) {
 	c08Order(c)
 	c08Crew(c)
 	c08Step(c)
+	c08Mcrew(c)
 }
 
 // c08Guards: forward slice of every guard execution result in core.
@@ -833,4 +835,90 @@ func c08Step(c *Ctx) {
 		}
 	}
 	c.R.Check(ok, "C08-R6", "Walk: every stride returned by Step is recorded", c.pos(rec), "the append of the stride to Walked.Strides lies on every path from the Step call to the next step or a return", why)
+}
+
+// c08Mcrew: C08-R7.
+func c08Mcrew(c *Ctx) {
+	proc := c.fn("cmd/mcrew", "Service", "Process")
+	if proc == nil {
+		return
+	}
+	// goroutine bodies started from Process's closure
+	goBodies := map[*ssa.Function]bool{}
+	var fns []*ssa.Function
+	seen := map[*ssa.Function]bool{}
+	for _, f := range pkgClosure(proc) {
+		if prog.PkgOf(f) != "cmd/mcrew" {
+			continue
+		}
+		for _, g := range ssau.WithAnon(f) {
+			if !seen[g] {
+				seen[g] = true
+				fns = append(fns, g)
+			}
+		}
+	}
+	for _, f := range fns {
+		ssau.Instrs(f, func(in ssa.Instruction) {
+			if g, ok := in.(*ssa.Go); ok {
+				if mc, isMC := g.Call.Value.(*ssa.MakeClosure); isMC {
+					goBodies[mc.Fn.(*ssa.Function)] = true
+				}
+			}
+		})
+	}
+	isEmittedChan := func(ch ssa.Value) bool {
+		_, is := ssau.LoadOfField(ch, prog.Abs("cmd/mcrew"), "Service", "Emitted")
+		return is
+	}
+	n := 0
+	for _, f := range fns {
+		if f == proc {
+			// fall through: Process itself is judged like its helpers
+		}
+		ssau.Instrs(f, func(in ssa.Instruction) {
+			var val ssa.Value
+			switch x := in.(type) {
+			case *ssa.Send:
+				if isEmittedChan(x.Chan) {
+					val = x.X
+				}
+			case *ssa.Select:
+				for _, st := range x.States {
+					if st.Dir == types.SendOnly && isEmittedChan(st.Chan) {
+						val = st.Send
+					}
+				}
+			}
+			if val == nil {
+				return
+			}
+			n++
+			ok, why := true, ""
+			// not in a goroutine started by Process (walk up the literal nesting)
+			for g := f; g != nil; g = g.Parent() {
+				if goBodies[g] {
+					ok, why = false, "the send is made from a goroutine: messages of one action can be reported out of order (and a loop variable shared by the goroutines can be reported several times)"
+				}
+			}
+			// inside a loop over Events.Emitted, sending that loop's element
+			if ok {
+				inLoop := false
+				for _, l := range enclosingLoops(flow.Loops(f), in.Block()) {
+					if op := loopOperand(l); op != nil {
+						if _, is := ssau.LoadOfField(op, prog.Abs("core"), "Events", "Emitted"); is || strings.Contains(op.String(), "Emitted") {
+							inLoop = true
+						}
+					}
+				}
+				if !inLoop {
+					ok, why = false, "the send is not inside the loop over a stride's emitted messages"
+				}
+			}
+			c.R.Check(ok, "C08-R7", fmt.Sprintf("%s: hand-over to Service.Emitted #%d", fname(f), n), c.pos(in), "sent by Process itself, in emission order", why)
+		})
+	}
+	if n == 0 {
+		c.R.Break("C08-R7: mcrew never sends on Service.Emitted")
+	}
 }
